@@ -12,7 +12,7 @@ RULE = ('cases = mpf function x destination precision and each operand precision
         'exact rational result: |r - exact| < 2^(2-p)|exact|, r = exact when operands and exact value fit in p bits, exact family equal; plus bit-exact mpf_mul; non-trivial = distinct case line')
 EXPLANATION = ('Properties_C13.v proves the accuracy bound for the bit-exact model of mpf_mul for all operands and precisions, and the soundness of the certificate arithmetic; '
                'for every other function the property itself is evaluated by the model on the library\'s result with exact rational arithmetic')
-ASSUMPTIONS = ['only mpf_mul has a bit-exact model with a theorem; add/sub/div/sqrt/set_q/set_d/set_str and the _ui forms are decided per call by the certified property evaluation (exact rational arithmetic in the extracted model)',
+ASSUMPTIONS = ['only mpf_mul and mpf_add (operands of equal sign) have bit-exact models with theorems; sub/div/sqrt/set_q/set_d/set_str and the _ui forms are decided per call by the certified property evaluation (exact rational arithmetic in the extracted model)',
                'mpf_get_str digit accuracy is checked per call by Python rational arithmetic in addition (supporting, not part of the model)']
 TIMEOUT = 1500
 
@@ -125,6 +125,16 @@ def cases(ctx, tier):
             return m, rng.randrange(-50, 50)
         um, ue = op(); vm, ve = op()
         out.append(('mpf_mul %x %s %s %s %s' % (prec, hx(um), hx(ue), hx(vm), hx(ve)), 'mpf_mul-bitexact'))
+        # mpf_add, same sign, every layout of the two mantissas (inside / below / gap / cancelled), carries into a new limb
+        sgn = rng.choice([1, -1])
+        un = max(1, rng.choice([1, 2, prec - 1, prec, prec + 1, prec + 3])); vn = max(1, rng.choice([1, 2, prec - 1, prec, prec + 2, 2 * prec]))
+        am = nonzero_top(rng, un, rng.choice(['uniform', 'ones', 'topmax', 'lowzero', 'runs'])); bm = nonzero_top(rng, vn, rng.choice(['uniform', 'ones', 'topmax', 'lowzero', 'top1']))
+        ae = rng.randrange(-20, 20)
+        ediff = rng.choice([0, 0, 1, 2, un - 1, un, un + 1, prec - 1, prec, prec + 1, vn, rng.randrange(0, 2 * prec + 2)])
+        be = ae - max(0, ediff) if rng.random() < 0.8 else ae + rng.randrange(0, prec + 2)
+        if rng.random() < 0.05: bm = 0
+        if rng.random() < 0.05: am = 0
+        out.append(('mpf_add_exact %x %s %s %s %s' % (prec, hx(sgn * am), hx(ae), hx(sgn * bm), hx(be)), 'mpf_add-bitexact'))
     return out
 
 def extra(ctx):
